@@ -238,8 +238,14 @@ def run_wfault(case, s, h):
         # short write, writer carries on: only safety, and completeness up to the tear
         tear = sum(dev.calls[: case["i"]]) if dev.failed else len(image)
         intact = image == s["raw"]
-        v, outs = judge(s, image, len(image), case, label, intact and is_boundary(s, len(image)), completeness=intact,
-                        min_complete=complete_records(s, tear) if len(image) >= header_len(s) else None)
+        if err is None and acked == len(records):
+            # every write() was acknowledged and the device took whatever it was offered again: all frames are complete
+            if not intact:
+                viol.append(("C04:%s:acknowledged-but-image-differs" % label, case, {"image_len": len(image), "expected_len": len(s["raw"])}))
+            v, outs = judge(s, image, len(s["raw"]), case, label, True, completeness=True)
+        else:
+            v, outs = judge(s, image, len(image), case, label, intact and is_boundary(s, len(image)), completeness=intact,
+                            min_complete=complete_records(s, tear) if len(image) >= header_len(s) else None)
         viol += v
     # an acknowledged write that the device accepted completely must be readable (acked counts only when no error was raised)
     return {"ev": 3, "h": h, "nt": dev.failed, "out": outs, "viol": viol, "sample": case if int(h, 16) % 499 == 0 else None,
@@ -284,7 +290,8 @@ def cases(tier):
         for writer in ("low", "adapter", "gzip"):
             calls = count_calls(name, writer)
             for i, ln in enumerate(calls):
-                ks = sorted(set(range(ln)) if tier == "thorough" and ln <= 64 else {0, 1, max(0, ln - 1), ln // 2} & set(range(ln)) | {0})
+                ks = sorted(set(range(ln)) if tier == "thorough" and ln <= 64 else
+                            {0, 1, ln // 2, max(0, ln - 1), max(0, ln - 2), max(0, ln - 3), max(0, ln - 4), max(0, ln - 5)} & set(range(ln)) | {0})
                 for k in ks:
                     for mode in ("raise", "short"):
                         if writer == "gzip" and mode == "short":
